@@ -80,9 +80,10 @@ BY_PROPERTY = {
 }
 
 
-def make(family, seed, index):
+def make(family, seed, index, overrides=None):
     rng = random.Random(f"{family}:{seed}:{index}")
     knobs = dict(FAMILIES[family])
+    knobs.update(overrides or {})
     kern = knobs.pop("kern", None)
     marks = knobs.pop("marks", None)
     if marks:
